@@ -565,6 +565,25 @@ def union_all(chk, rid):
            'per-rule SELECTs joined with %r' % const_str(j.func.value).strip(),
            'rules of one predicate are combined with %r: multiplicities of '
            'several rules no longer add up' % ' '.join(toks), fi=fi, node=j)
+  # every non-nil rule contributes its own branch: the only condition on the
+  # way to the append is the nil test (two rules with the same SQL are two
+  # branches - that is what adds their multiplicities)
+  pv_ = FnView(repo, 'universe.LogicaProgram.PredicateSql')
+  lists_ = {dotted(j.args[0]) for j in joins}
+  extra_ = None
+  for n_, c_ in pv_.all_calls():
+    if call_tail(c_) == 'append' and isinstance(c_.func, ast.Attribute) and \
+        dotted(c_.func.value) in lists_:
+      for e_, val_ in pv_.guards(n_):
+        t_ = norm(pv_.expand(e_, 2), 200)
+        if 'nil' in t_ or 'distinct_denoted' in t_ or 'len(' in t_:
+          continue
+        extra_ = e_
+  chk.ob(rid, extra_ is None, None,
+         'every non-nil rule of a predicate becomes a branch of the UNION ALL',
+         'a branch is added only under `%s`: rules (facts, disjuncts) that compile to the '
+         'same SELECT are merged, their multiplicities no longer add up'
+         % (norm(extra_, 60) if extra_ is not None else ''), fi=fi, node=extra_)
   consts = [c for c in ast.walk(fi.node)
             if isinstance(c, ast.Constant) and isinstance(c.value, str)
             and not _is_message(fi.node, c)]
